@@ -21,7 +21,7 @@ func register(r *mc.Registry) {
 		maxUnguarded = 1
 	}
 	inputs := allInputs(maxLen)
-	all := append(append([]producer{}, producers...), hamtProducers()...)
+	all := append(append(append([]producer{}, producers...), operandProducers...), hamtProducers()...)
 	var names []string
 	for _, p := range all {
 		p := p
